@@ -1228,7 +1228,7 @@ class MountPointStore(RoutingStore):
         except KeyRouteNotFoundStoreException:
             for route, _ in reversed(self.routing_table):
                 if route == key or route.startswith(key + "/"):
-                    return self.finalize_metadata({}, key, is_dir=True)
+                    return True
         return False
 
     def keys(self):
